@@ -48,6 +48,11 @@ MANIFEST = dict(
 THEOREMS = ["C09_compile_correct", "C09_no_stuck_partial", "C09_no_stuck_on_error_partial", "C09_errors_partial", "C09_expr_simulation", "C09_list_order", "C09_arg_order",
             "C09_string_order", "C09_field_order", "C09_innermost_binding", "C09_funref_refuted"]
 ALLOWED_AXIOMS = []
+FRAGMENT_OPCODES = ["LoadConstant", "GetLocal", "GetUpvalue", "GetLastResult", "Negate", "LogicalNeg", "Factorial",
+                    "Add", "Subtract", "Multiply", "Divide", "Power", "LessThan", "GreaterThan", "LessOrEqual",
+                    "GreatorOrEqual", "Equal", "NotEqual", "LogicalAnd", "LogicalOr", "JumpIfFalse", "Jump", "Call",
+                    "FFICallFunction", "FFICallProcedure", "CallCallable", "JoinString", "BuildStructInstance",
+                    "AccessStructField", "BuildList", "Return"]   # ConvertTo: units are not modelled
 FUEL_REF = 600
 FUEL_MACH = 20000
 
@@ -117,6 +122,7 @@ class Gen:
         self.structs = {}     # name -> [(field, type)]
         self.foreign = set()
         self.features = collections.Counter()
+        self.ans_type = None   # type of the last expression statement (`ans`)
         self.cost = 0          # estimated evaluation steps of the code generated since the last reset
         self.fn_cost = {}      # name -> estimated steps of one call
 
@@ -177,10 +183,20 @@ class Gen:
                 b, bc = self.expr(S, d - 1, scope, nostr)
                 self.features["arith"] += 1
                 return "(%s %s %s)" % (a, op, b), "EBin %s (%s) (%s)" % (cop, ac, bc)
-            if c < 0.65:
+            if c < 0.60:
                 a, ac = self.expr(S, d - 1, scope, nostr)
                 self.features["neg"] += 1
                 return "(-%s)" % a, "EUn UNeg (%s)" % ac
+            if c < 0.63:
+                a, ac = self.expr(S, d - 1, scope, nostr)
+                k = r.randrange(1, 10)
+                self.features["div"] += 1
+                return ("((%s * %d) / %d)" % (a, k, k),
+                        "EBin BDiv (EBin BMul (%s) (EScalar %d%%Z)) (EScalar %d%%Z)" % (ac, k, k))
+            if c < 0.65:
+                a, ac = self.expr(S, 0, scope, nostr)
+                self.features["pow"] += 1
+                return "(%s^2)" % a, "EBin BPow (%s) (EScalar 2%%Z)" % ac
             if c < 0.70:
                 n = r.randrange(0, 5)
                 self.features["fact"] += 1
@@ -412,6 +428,12 @@ class Gen:
         self.src.append(self.FOREIGN[name][0])
         self.coq.append("SForeign %s" % cstr(name))
 
+    def top_scope(self):
+        sc = dict(self.globals)
+        if self.ans_type is not None:
+            sc["ans"] = self.ans_type      # GetLastResult; only used at top level
+        return sc
+
     def stmt_let(self):
         r = self.rng
         t = self.simple_type()
@@ -420,7 +442,7 @@ class Gen:
             self.features["shadow_global"] += 1
         self.cost = 0
         try:
-            e, ec = self.expr(t, r.randrange(1, 4), dict(self.globals))
+            e, ec = self.expr(t, r.randrange(1, 4), self.top_scope())
         except LookupError:
             return False
         if self.cost > self.STMT_LIMIT:
@@ -434,14 +456,19 @@ class Gen:
         r = self.rng
         t = self.simple_type(allow_fn=False)
         self.cost = 0
+        if self.ans_type is not None and r.random() < 0.25:
+            t = self.ans_type
         try:
-            e, ec = self.expr(t, r.randrange(1, 5), dict(self.globals))
+            e, ec = self.expr(t, r.randrange(1, 5), self.top_scope())
         except LookupError:
             return False
         if self.cost > self.STMT_LIMIT:
             return False
+        if '"ans"' in ec:
+            self.features["ans"] += 1
         self.src.append(e)
         self.coq.append("SExpr (%s)" % ec)
+        self.ans_type = t
         return True
 
     def stmt_print(self):
@@ -630,8 +657,80 @@ def funref_pattern(rng):
     return src, coq
 
 
-def coq_case(coq_stmts):
-    return "show_case %d (N.to_nat %d) %s" % (FUEL_REF, FUEL_MACH, clist(coq_stmts))
+def error_cases(rng):
+    """programs that end in a runtime error: the error kind must agree three ways"""
+    k = rng.randrange(1, 9)
+    D = "dimension Scalar = 1"
+    z = "EScalar 0%Z"
+    def sc(n):
+        return "EScalar %d%%Z" % n
+    div0 = "EBin BDiv (%s) (%s)" % (sc(k), z)
+    cases = [
+        ([D, "(%d / 0)" % k], ["SExpr (%s)" % div0]),
+        ([D, "fn g(x: Scalar) -> Scalar = (x / 0)", "(g(%d) + 1)" % k],
+         ['SFn "g" ["x"] [] (EBin BDiv (EIdent "x") (%s))' % z,
+          'SExpr (EBin BAdd (ECall "g" [%s]) (EScalar 1%%Z))' % sc(k)]),
+        ([D, "assert((%d > %d))" % (k, k + 1)], ['SProc "assert" [EBin BGt (%s) (%s)]' % (sc(k), sc(k + 1))]),
+        ([D, "assert_eq(%d, %d)" % (k, k + 1)], ['SProc "assert_eq" [%s; %s]' % (sc(k), sc(k + 1))]),
+        ([D, Gen.FOREIGN["head"][0], Gen.FOREIGN["tail"][0], "head(tail([%d]))" % k],
+         ['SForeign "head"', 'SForeign "tail"', 'SExpr (ECall "head" [ECall "tail" [EList [%s]]])' % sc(k)]),
+        ([D, "let a = %d" % k, "print(a)", "(a / 0)"],
+         ['SLet "a" (%s)' % sc(k), 'SProc "print" [EIdent "a"]', 'SExpr (EBin BDiv (EIdent "a") (%s))' % z]),
+        ([D, "fn g(x: Scalar) -> Scalar = y where y = (x / 0)", "g(%d)" % k],
+         ['SFn "g" ["x"] [("y", EBin BDiv (EIdent "x") (%s))] (EIdent "y")' % z, 'SExpr (ECall "g" [%s])' % sc(k)]),
+        ([D, "(if (%d < 1) then 1 else (1 / 0))" % k],
+         ['SExpr (ECond (EBin BLt (%s) (EScalar 1%%Z)) (EScalar 1%%Z) (EBin BDiv (EScalar 1%%Z) (%s)))' % (sc(k), z)]),
+        ([D, '"a{(%d / 0)}b"' % k], ['SExpr (EString [inl "a"; inr (%s, None); inl "b"])' % div0]),
+        ([D, "[1, (%d / 0), 3]" % k], ['SExpr (EList [EScalar 1%%Z; %s; EScalar 3%%Z])' % div0]),
+        ([D, "fn w(g: Fn[(Scalar) -> Scalar], x: Scalar) -> Scalar = g(x)", "fn h(x: Scalar) -> Scalar = (x / 0)", "w(h, %d)" % k],
+         ['SFn "w" ["g"; "x"] [] (ECallable (EIdent "g") [EIdent "x"])',
+          'SFn "h" ["x"] [] (EBin BDiv (EIdent "x") (%s))' % z, 'SExpr (ECall "w" [EIdent "h"; %s])' % sc(k)]),
+    ]
+    return cases
+
+
+def oversize_cases():
+    """conditionals with a branch larger than 65535 bytes (3 bytes per list element):
+    run on the implementation only, expected value known by construction"""
+    out = []
+    for n in (21000, 22000):
+        lst = "[" + ",".join(["1"] * n) + "]"
+        pre = ["dimension Scalar = 1", Gen.FOREIGN["len"][0]]
+        out.append((pre + ["if true then len(%s) else 7" % lst], "V:%d" % n, n))
+        out.append((pre + ["if false then len(%s) else 7" % lst], "V:7", n))
+    return out
+
+
+FUEL_MACH_HANG = 1500      # the implementation did not terminate: only "out of fuel" matters
+
+
+def coq_case(coq_stmts, mfuel=None):
+    return "show_case %d (N.to_nat %d) %s" % (FUEL_REF, mfuel or FUEL_MACH, clist(coq_stmts))
+
+
+def safe_mismatches(imports, items, tag, base=0, timeout=420):
+    """common.coq_mismatches, but a shard that does not finish is bisected; a single case
+    that does not finish is reported as @@MODEL-TIMEOUT instead of aborting the check"""
+    try:
+        return common.coq_mismatches(imports, items, tag, shard_size=max(20, min(120, len(items) // common.NPROC + 1)),
+                                     timeout=timeout, prelude="Open Scope string_scope.")
+    except (common.Broken, subprocess.TimeoutExpired) as e:
+        for f in os.listdir(common.WORK):
+            if f.startswith("Cases_%s_" % tag):
+                try:
+                    os.remove(os.path.join(common.WORK, f))
+                except OSError:
+                    pass
+        if len(items) == 1:
+            return {0: "@@MODEL-TIMEOUT"}
+        if "timed out" not in str(e) and not isinstance(e, subprocess.TimeoutExpired):
+            raise
+        h = len(items) // 2
+        a = safe_mismatches(imports, items[:h], tag + "a", timeout=max(60, timeout // 2))
+        b = safe_mismatches(imports, items[h:], tag + "b", timeout=max(60, timeout // 2))
+        out = dict(a)
+        out.update({k + h: v for k, v in b.items()})
+        return out
 
 
 # -------------------------------------------------------------- harness I/O
@@ -696,6 +795,8 @@ BIG = re.compile(r"\d{15,}")
 def classify(impl_line, model_str):
     """-> (kind, detail).  kinds: ok, overflow, model-compile, model-machine, known-funref, impl-vs-ref"""
     io, idump = impl_obs(impl_line)
+    if model_str == "@@MODEL-TIMEOUT":
+        return "model-timeout", "the model evaluation of this case did not finish"
     parts = model_str.split(" || ")
     if len(parts) != 4:
         return "model-machine", "unparsable model output"
@@ -743,10 +844,10 @@ def evaluate(binary, cases, tag):
     items = []
     for n, (s, c) in enumerate(cases):
         io, idump = impl_obs(impl[n])
-        items.append((coq_case(c), "%s || %s || %s || %s" % (io, io, io, idump)))
-    bad = common.coq_mismatches(["VM.Value", "VM.Ast", "VM.Bytecode", "VM.Compile", "VM.Machine", "VM.RefSem", "VM.Exec"],
-                                items, tag, shard_size=max(20, min(120, len(items) // common.NPROC + 1)), timeout=600,
-                                prelude="Open Scope string_scope.")
+        hang = io.startswith("R:@@")
+        items.append((coq_case(c, FUEL_MACH_HANG if hang else None), "%s || %s || %s || %s" % (io, io, io, idump)))
+    bad = safe_mismatches(["VM.Value", "VM.Ast", "VM.Bytecode", "VM.Compile", "VM.Machine", "VM.RefSem", "VM.Exec"],
+                          items, tag)
     out = []
     for n in range(len(cases)):
         if n in bad:
@@ -823,6 +924,9 @@ def run(chk):
         cases.append((s, c))
         kinds.append("generated")
 
+    for c in error_cases(chk.rng) + error_cases(chk.rng):
+        cases.append(c)
+        kinds.append("error-stream")
     results = []
     B = 4000
     for i in range(0, len(cases), B):
@@ -877,6 +981,34 @@ def run(chk):
             model_broken.append(n)
         elif kind == "generator":
             pass
+    # u16 wrap of jump offsets: implementation only
+    over = oversize_cases()
+    over_impl = run_vm_harness(binary, [" ;; ".join(src) for src, _, _ in over], chunk_timeout=120)
+    over_bad = 0
+    for (src, expected, n), line in zip(over, over_impl):
+        got = split_impl(line)[0]
+        if got == expected:
+            continue
+        over_bad += 1
+        fk = None
+        if 3 * n + 3 > 65535:      # the then-branch does not fit a u16 jump operand
+            for k in common.load_known():
+                if k.get("property") == "C09" and k.get("status") == "open" and \
+                        k.get("matcher", {}).get("class") == "conditional-branch-over-65535-bytes":
+                    fk = k
+        desc = "%s with a %d-element list literal: implementation %s, expected %s" % (
+            src[-1][:14] + "…", n, got, expected)
+        if fk:
+            if fk["id"] not in reported_known:
+                reported_known.add(fk["id"])
+                chk.known(fk["id"], "%s: %s" % (fk["id"], desc))
+            else:
+                chk.known_hits.append(fk["id"])
+        elif found < 3:
+            chk.violation({"kind": "conditional gives a wrong result", "detail": desc,
+                           "program_shape": src[-1][:40] + "...", "list_elements": n,
+                           "implementation": got, "expected": expected})
+            found += 1
     if not found and (model_broken or not proved):
         n = model_broken[0] if model_broken else None
         first = None
@@ -894,6 +1026,8 @@ def run(chk):
         }, found_input=False)
 
     gen_rejected = tally.get("generator", 0)
+    if tally.get("model-timeout"):
+        chk.notes.append("%d case(s) skipped: model evaluation did not finish in time" % tally["model-timeout"])
     chk.cov.update({
         "evaluations": len(cases),
         "distinct_nontrivial": nontrivial,
@@ -910,6 +1044,8 @@ def run(chk):
         "feature_histogram": dict(feats),
         "opcode_coverage_cases": dict(ops_hist),
         "model_mismatches": len(model_broken),
+        "oversize_branch_cases": len(over), "oversize_branch_deviations": over_bad,
+        "opcodes_of_the_fragment_never_generated": sorted(set(FRAGMENT_OPCODES) - set(ops_hist)),
         "exhaustive": False,
         "samples": [{"program": cases[i][0], "implementation": results[i][0][:300]}
                     for i in (0, len(cases) // 2, len(cases) - 1)],
